@@ -185,7 +185,7 @@ func (c *prefaceConnC37) Read(p []byte) (int, error) {
 // the only other party (vrt.OnBlock): whenever the loop waits in its select the harness first looks at
 // the scheduler - the loop must never go back to waiting with more than the limit of control frames
 // pending - and then delivers the next event the way the reader goroutine / the reload signal would:
-// FLOOD PING frames, optionally preceded or interrupted by the graceful-shutdown notification
+// FLOOD PING frames (or FLOOD empty SETTINGS frames), optionally preceded or interrupted by the graceful-shutdown notification
 // (CloseNotifyCh closed -> goAway(NO_ERROR)), finally EOF. The `go` statements of serve() are recorded and
 // never run: the frame writer never reports back, i.e. the client does not read. To keep the run short
 // the scheduler already holds PRE = limit-SLACK PING acks when serve() is entered (with the counter equal
@@ -220,6 +220,8 @@ func VerifC37_serve() {
 		gracefulAt = 2
 	}
 
+	settingsFlood := vrt.Choose("floodKind", 2) == 1 // PING frames, or empty SETTINGS frames (each wants an acknowledgement)
+
 	waits, delivered := 0, 0
 	prefaceRead, notified, eofSent := false, false, false
 	peer := func() {
@@ -237,7 +239,11 @@ func VerifC37_serve() {
 		}
 		if delivered < flood {
 			delivered++
-			sc.readFrameCh <- readFrameResult{f: &PingFrame{FrameHeader: FrameHeader{valid: true, Type: FramePing, Length: 8}}, readMore: func() {}}
+			var f Frame = &PingFrame{FrameHeader: FrameHeader{valid: true, Type: FramePing, Length: 8}}
+			if settingsFlood {
+				f = &SettingsFrame{FrameHeader: FrameHeader{valid: true, Type: FrameSettings}}
+			}
+			sc.readFrameCh <- readFrameResult{f: f, readMore: func() {}}
 			return
 		}
 		eofSent = true
@@ -250,7 +256,7 @@ func VerifC37_serve() {
 	vrt.Assert(pc.closed, "C37/connection-closed-when-serve-returns")
 	if !eofSent {
 		// serve() gave up by itself: it must have been the flood check (nothing else can end this run)
-		vrt.Assert(delivered > 0 && sc.queuedControlFrames > limit, "C37/serve-ended-by-the-limit-check")
+		vrt.Assert(delivered > 0 && controlQueuedC37(sc) > limit, "C37/serve-ended-by-the-limit-check")
 		vrt.Cover("C37/flood-past-the-limit-closes-the-connection")
 	}
 	if gracefulAt >= 0 && notified {
